@@ -208,6 +208,7 @@ func (v *VStruct) validate(structName string, value reflect.Value, isValidGather
 					descended = true
 				case Either, BothEq:
 					v.vc.initValid2FieldsMap(&name2Value{
+						scope:      structName,
 						validName:  validName,
 						objName:    structName,
 						fieldName:  fieldInfo.name,
